@@ -281,7 +281,7 @@ def run(ctx):
     if ctx.tier == 'quick':
         cases = cases_for(130, 1500000, 20, ctx.seed, 5, 8, 2)
     else:
-        cases = cases_for(200, 6000000, 300, ctx.seed, 6, 10, 3)
+        cases = cases_for(320, 20000000, 300, ctx.seed, 6, 12, 3)
     ctx.note('instances', len(cases))
     ctx.note('excluded_from_domain',
              'Color666ToricCode with L_x != L_y (logicals cannot be built: C01 known finding)')
